@@ -7,9 +7,11 @@ ID = "C03"
 COQ_FILES = ["Common/Bytes.v", "Common/Corr.v", "Model/Utf8.v", "Model/Lexer.v", "Model/Comments.v",
              "Model/ProtocComments.v", "Proofs/Comments.v", "Props/C03.v"]
 PROPS = "Props/C03.v"
-THEOREMS = ["C03_comments_eq_protoc_refuted", "C03_comments_eq_protoc_partial", "C03_comments_eq_protoc_fixed",
-            "C03_attribution_eq_protoc", "C03_combine_comments_text_refuted", "C03_combine_comments_text_partial",
-            "C03_combine_comments_text_fixed", "C03_roles_partition", "C03_comment_used_once"]
+THEOREMS = ["C03_comments_eq_protoc", "C03_attribution_eq_protoc", "C03_combine_comments_text",
+            "C03_roles_partition", "C03_comment_used_once",
+            # the code before the repairs e67d3d01 / 574d1b31 / 1915eb6c (historical)
+            "C03_comments_eq_protoc_pinned_refuted", "C03_comments_eq_protoc_pinned_partial",
+            "C03_combine_comments_text_pinned_refuted", "C03_combine_comments_text_partial"]
 AXIOMS_OK = []
 TRUSTED = ["hand-written Gallina model of parser/lexer.go comment attribution and sourceinfo attributeComments/combineComments (Model/Comments.v)",
            "Coq transcription of protoc's Tokenizer::NextWithComments / CommentCollector / ConsumeBlockComment / AttachComments (Model/ProtocComments.v), validated on every run against internal/testdata/source_info.protoset",
@@ -19,9 +21,8 @@ ASSUMPTIONS = ["protoc is not available: its behaviour is the Coq specification;
                "gaps next to an empty statement are compared for the trailing comment of the declaration before it only: protoc's parser carries detached comments across an empty statement, which is not specified here",
                "sources that protoc rejects but this compiler accepts (a block comment containing the opening delimiter of another one) are not generated"]
 
-# which instance of the model the tree is expected to match: the code as it is, or with repairs applied
-# (VERIF_C03_CFG=fix_ws,fix_empty,fix_sep after the corresponding fixes/C03-*.diff went in)
-CFG = set(x for x in os.environ.get("VERIF_C03_CFG", "").split(",") if x)
+# which instance of the model the tree is expected to match (default: the repaired code; see srcinfolib.CFG)
+CFG = S.CFG
 COQ_CFG = "(mkcfg %s %s %s)" % tuple(coq_bool(f in CFG) for f in ("fix_ws", "fix_empty", "fix_sep"))
 
 KNOWN_KEYS = ("block-comment-line-starts-with-cr-vt-ff", "empty-comment-sets-field",
@@ -172,7 +173,12 @@ def run(ctx):
             raise RuntimeError("base source does not compile: " + str(o)[:400])
         bases.append((b, S.Src(bytes.fromhex(o["data"]), o["items"])))
     cases = [{"mode": "compile", "text": c.hex()} for c in CORPUS]
-    nfiles = ctx.budget(60, 3000)
+    exh = S.exhaustive_sources(ctx.budget(3, 4))
+    cases += [{"mode": "compile", "text": c.hex()} for c in exh]
+    ctx.extra["exhaustive_part"] = ("every gap of at most %d items over {newline, line comment, one-line block comment, two-line block comment} "
+                                    "between two fields, before a closing brace, before an empty statement (%d files), a sample of them at the end of the file"
+                                    % (ctx.budget(3, 4), len(exh)))
+    nfiles = ctx.budget(50, 800)
     for i in range(nfiles):
         b, src = bases[i % len(bases)]
         c = {"mode": "compile", "text": S.retrivia(rng, src).hex()}
@@ -230,13 +236,13 @@ def run(ctx):
     ctx.sample({"source": CORPUS[3].decode()})
     def cap(terms, meta, n):
         # the corpus comes first and is always kept; the rest is sampled
-        keep = min(len(terms), 200)
+        keep = min(len(terms), 1400)
         if len(terms) <= n:
             return terms, meta
         idx = list(range(keep)) + sorted(rng.shuffle(list(range(keep, len(terms))))[:n - keep])
         return [terms[i] for i in idx], [meta[i] for i in idx]
-    go_terms, go_meta = cap(go_terms, go_meta, ctx.budget(5000, 10 ** 9))
-    sp_terms, sp_meta = cap(sp_terms, sp_meta, ctx.budget(3000, 10 ** 9))
+    go_terms, go_meta = cap(go_terms, go_meta, ctx.budget(5500, 10 ** 9))
+    sp_terms, sp_meta = cap(sp_terms, sp_meta, ctx.budget(3500, 10 ** 9))
     ctx.extra["model_vs_implementation_cases"] = len(go_terms)
     for t, m in zip(go_terms, go_meta):
         allterms.append(("go", "(CGo %s)" % t, m))
